@@ -40,6 +40,21 @@ def _resolve(path):
     return obj
 
 
+_AT = None
+
+
+def post_model(line):
+    """evaluate the trusted transcendental tokens the model leaves symbolic"""
+    global _AT
+    if "atan2deg(" in line:
+        import re
+        import adapters
+        if _AT is None:
+            _AT = re.compile(r"atan2deg\((-?\d+),(-?\d+)\)")
+        line = _AT.sub(lambda mo: repr(adapters.atan2deg(int(mo.group(1)), int(mo.group(2)))), line)
+    return line
+
+
 def eval_real(real):
     path, args = real[0], real[1]
     kwargs = real[2] if len(real) > 2 else {}
@@ -79,7 +94,7 @@ def run_cases(mod, ctx, driver_ok):
                 st["distinct"].add(core.hash_str(json.dumps([c.get("op"), c["real"]], sort_keys=True, default=str)))
             m = None
             if c.get("op") and driver_ok:
-                m = next(outs)
+                m = post_model(next(outs))
                 st["model_lines"] += 1
             ok, exp = check_spec(mod, c, r)
             rec = None
